@@ -1,0 +1,27 @@
+//go:build verif
+
+package kapacitor
+
+import (
+	"github.com/influxdata/kapacitor/keyvalue"
+	"github.com/influxdata/kapacitor/pipeline"
+)
+
+// Verification hook (property C05): drives the unexported node runner (node.start / node.Wait)
+// with a caller-supplied run function. Add-only; compiled only with the build tag `verif`.
+
+type verifNodeDiag struct{ NodeDiagnostic }
+
+func (verifNodeDiag) Error(msg string, err error, ctx ...keyvalue.T) {}
+
+// VerifNodeStart starts a bare node whose run function is run and returns what Wait reports.
+func VerifNodeStart(pn pipeline.Node, run func() error) error {
+	n := &node{
+		Node:  pn,
+		diag:  verifNodeDiag{},
+		errCh: make(chan error, 1),
+		runF:  func([]byte) error { return run() },
+	}
+	n.start(nil)
+	return n.Wait()
+}
